@@ -819,38 +819,6 @@ private:
   }
 
 
-  /**
-   * Given lhs := ite(cond, b1, b2)
-   *
-   * if b1 is false then
-   *    if lhs becomes true then not(cond) and b2 must be true
-   *
-   * if b2 is false then
-   *    if lhs becomes true then cond and b1 must be true
-   **/
-  template<class BoolToCstEnv>
-  void propagate_select_bool(BoolToCstEnv &env,
-			     const boolean_value &b1_val, const boolean_value &b2_val,   
-			     const variable_t &lhs, const variable_t &cond,
-			     const variable_t &b1, const variable_t &b2) {
-    // lhs := true false true
-    if (b2_val.is_false()) {
-      // if lhs becomes true later then cond and b1 must be true
-      env.set(lhs, env.at(cond) & env.at(b1));
-    } else if (b1_val.is_false()) {
-      // if lhs becomes true later then !cond and b2 must be true
-      auto cond_csts = env.at(cond);
-      if (cond_csts.size() == 1) {
-	auto cst = *(cond_csts.begin());
-	env.set(lhs, typename BoolToCstEnv::mapped_type(cst.negate()) & env.at(b2));
-      } else {
-	// we lost the condition because we cannot negate without
-	// introducing disjunctions.
-	env.set(lhs, env.at(b2));
-      }
-    }
-  }
-  
   /** End helpers to update subdomains **/
 
   /**
@@ -1503,8 +1471,12 @@ public:
 	m_product.select_bool(lhs, cond, b1, b2);
 	forget_implied_bool(lhs);
 	fwd_reduction_select_bool(lhs, cond_val, b1, b2);
-	propagate_select_bool(m_bool_to_lincsts, val1, val2, lhs, cond, b1, b2);
-	propagate_select_bool(m_bool_to_refcsts, val1, val2, lhs, cond, b1, b2);
+	// If b2 (b1) is false then "lhs implies cond and b1" ("lhs
+	// implies not(cond) and b2"). These are implications, not
+	// equivalences: they cannot be recorded in m_bool_to_lincsts
+	// or m_bool_to_refcsts because a constraint recorded there is
+	// negated when the Boolean is negated (b := not(lhs)). The
+	// positive part is kept in m_bool_to_bools.
 	if (val2.is_false()) {
 	  m_bool_to_bools.set(lhs,
 			      m_bool_to_bools.at(b1) & m_bool_to_bools.at(cond) &
